@@ -1,4 +1,160 @@
-/- driver stub (Migration): replaced by the owner of this model group -/
+/- driver for C20 (exe drv_mig).
+
+   gate <cfg: -|n|NAT> <rc: -|NAT> <ws: 0|1>
+        a directory /p with that `.signac/config` version / legacy `signac.rc` version, with or
+        without a workspace directory, nothing above it.
+        -> four tokens: Project(/p) get_project(/p) get_project(/p, search=False) init_project(/p)
+           each  ok{:+d<path>|:+c<path>}* | LookupError | IncompatibleSchemaVersion | AssertionError
+
+   mig <state>      -> <result> <state>      (apply_migrations)
+   state  := <conf> <conf> <dot 0|1> E <n> (<hex key> <hex blob>)*n <doc> <blob>*4 <lock 0|1> <blob>
+             (signac.rc, .signac/config, .signac exists, root entries, project document,
+              v1 cache, v1 history, v2 cache, v2 history, lock file, everything else)
+   conf   := - | C <ver: -|NAT> <project: -|s<hex>> <workspace_dir: -|s<hex>>
+   doc    := - | D <wire object>
+   blob   := - | b<hex>
+   result := ok | unableToLoad | tooNew | failed<N> | noConfig | noPath -/
 import Signac.Wire
-open Signac
-def main : IO Unit := driverLoop (fun _ => "bad-op")
+import Signac.Migration
+import Signac.Discovery
+open Signac Signac.Mig
+
+def parseOptNat (s : String) : Option (Option Nat) :=
+  if s = "-" then some none else s.toNat?.map some
+
+def parseOptStr (s : String) : Option (Option String) :=
+  if s = "-" then some none
+  else match s.toList with
+    | 's' :: hx => (unhex (String.ofList hx)).map some
+    | _ => none
+
+def parseBlob (s : String) : Option (Option Blob) :=
+  if s = "-" then some none
+  else match s.toList with
+    | 'b' :: hx => (unhex (String.ofList hx)).map some
+    | _ => none
+
+def parseBool (s : String) : Option Bool :=
+  if s = "0" then some false else if s = "1" then some true else none
+
+def parseConf : List String → Option (Option Conf × List String)
+  | "-" :: ts => some (none, ts)
+  | "C" :: v :: p :: w :: ts => do
+    let v ← parseOptNat v
+    let p ← parseOptStr p
+    let w ← parseOptStr w
+    pure (some ⟨v, p, w⟩, ts)
+  | _ => none
+
+def parseEnts : Nat → List String → Option (List (String × Blob) × List String)
+  | 0, ts => some ([], ts)
+  | n + 1, k :: b :: ts => do
+    let k ← unhex k
+    let b ← unhex b
+    let (es, rest) ← parseEnts n ts
+    pure ((k, b) :: es, rest)
+  | _, _ => none
+
+def parseDoc : List String → Option (Option (List (String × JVal)) × List String)
+  | "-" :: ts => some (none, ts)
+  | "D" :: ts =>
+    match parseVal (2 * ts.length + 2) ts with
+    | some (.obj kvs, rest) => some (some kvs, rest)
+    | _ => none
+  | _ => none
+
+def parseState (ts : List String) : Option Proj := do
+  let (rc, ts) ← parseConf ts
+  let (cfg, ts) ← parseConf ts
+  match ts with
+  | dot :: "E" :: n :: ts =>
+    let dot ← parseBool dot
+    let n ← n.toNat?
+    let (ents, ts) ← parseEnts n ts
+    let (doc, ts) ← parseDoc ts
+    match ts with
+    | [co, ho, cn, hn, lock, rest] =>
+      let co ← parseBlob co
+      let ho ← parseBlob ho
+      let cn ← parseBlob cn
+      let hn ← parseBlob hn
+      let lock ← parseBool lock
+      let rest ← parseBlob rest
+      pure { rc := rc, cfg := cfg, dotSignac := dot, ents := ents, doc := doc, cacheOld := co,
+             histOld := ho, cacheNew := cn, histNew := hn, lock := lock, rest := rest.getD "" }
+    | _ => none
+  | _ => none
+
+def showOptNat : Option Nat → String
+  | none => "-"
+  | some n => toString n
+
+def showOptStr : Option String → String
+  | none => "-"
+  | some s => "s" ++ toHex s
+
+def showBlob : Option Blob → String
+  | none => "-"
+  | some b => "b" ++ toHex b
+
+def showConf : Option Conf → String
+  | none => "-"
+  | some c => "C " ++ showOptNat c.version ++ " " ++ showOptStr c.project ++ " " ++ showOptStr c.wsDir
+
+def showEnts (es : List (String × Blob)) : String :=
+  " ".intercalate (es.map (fun (k, b) => toHex k ++ " " ++ toHex b))
+
+def showState (P : Proj) : String :=
+  " ".intercalate ([showConf P.rc, showConf P.cfg, (if P.dotSignac then "1" else "0"),
+    "E", toString P.ents.length] ++ (if P.ents.isEmpty then [] else [showEnts P.ents]) ++
+    [match P.doc with | none => "-" | some d => "D " ++ wire (.obj d),
+     showBlob P.cacheOld, showBlob P.histOld, showBlob P.cacheNew, showBlob P.histNew,
+     (if P.lock then "1" else "0"), showBlob (some P.rest)])
+
+def showResult : MigResult → String
+  | .ok => "ok"
+  | .unableToLoad => "unableToLoad"
+  | .tooNew => "tooNew"
+  | .failed n => "failed" ++ toString n
+  | .noConfig => "noConfig"
+  | .noPath => "noPath"
+
+/-! gate queries -/
+open Signac.Disc in
+def gateTree (cfg : Option (Option Nat)) (rc : Option Nat) (ws : Bool) : Tree :=
+  Tree.ofNodes ([⟨[], .dir, none, none⟩, ⟨["p"], .dir, cfg, rc⟩] ++
+    (if ws then [⟨["workspace", "p"], .dir, none, none⟩] else []))
+
+def pathStr (p : Disc.Path) : String := "/" ++ "/".intercalate p.reverse
+
+def showOut (r : Except Disc.Err Disc.Path × List Disc.Step) : String :=
+  let steps := String.join (r.2.map (fun s => match s with
+    | .mkdir p => ":+d" ++ pathStr p
+    | .writeConfig p => ":+c" ++ pathStr p))
+  match r.1 with
+  | .ok q => "ok:" ++ pathStr q ++ steps
+  | .error .lookup => "LookupError" ++ steps
+  | .error .incompatible => "IncompatibleSchemaVersion" ++ steps
+  | .error .assertion => "AssertionError" ++ steps
+
+def parseCfgTok (s : String) : Option (Option (Option Nat)) :=
+  if s = "-" then some none else if s = "n" then some (some none) else s.toNat?.map (fun v => some (some v))
+
+def stepMig (line : String) : String :=
+  match tokens line with
+  | ["gate", c, r, w] =>
+    match parseCfgTok c, parseOptNat r, parseBool w with
+    | some c, some r, some w =>
+      let t := gateTree c r w
+      " ".intercalate [showOut (Disc.openProject t ["p"]), showOut (Disc.getProject t ["p"] true),
+        showOut (Disc.getProject t ["p"] false), showOut (Disc.initProject t ["p"])]
+    | _, _, _ => "bad-value"
+  | "mig" :: ts =>
+    match parseState ts with
+    | some P =>
+      let (Q, r) := applyMigrations P
+      showResult r ++ " " ++ showState Q
+    | none => "bad-value"
+  | _ => "bad-op"
+
+def main : IO Unit := driverLoop stepMig
